@@ -256,7 +256,7 @@ namespace cdsv {
             std::lock_guard<std::mutex> g( r.mtx );
             r.current_variant = v;
         }
-        fprintf( stderr, "@@variant %s\n", v.c_str());
+        fprintf( stderr, "@@time %.1f\n@@variant %s\n", wall_now() - reg().t0, v.c_str());
         fflush( stderr );
     }
 
